@@ -6,6 +6,7 @@ import (
 	"fmt"
 	"io"
 	"os"
+	"time"
 
 	"github.com/gdamore/tcell/v2"
 	"verif.local/simrt"
@@ -45,18 +46,22 @@ type Tty struct {
 	WriteOut int // total bytes written
 
 	// faults
-	StartFailAt  int  // fail the n-th Start (1-based); 0 = never
-	WinSizeFail  bool // WindowSize returns an error while set
-	WriteFail    bool // Write returns an error while set
-	DrainErrs    int  // the next n Drains return an error (after waking the reader)
+	StartFailAt int  // fail the n-th Start (1-based); 0 = never
+	WinSizeFail bool // WindowSize returns an error while set
+	WriteFail   bool // Write returns an error while set
+	DrainErrs   int  // the next n Drains return an error (after waking the reader)
+	// WriteDelay: every Write takes that much simulated time; SlowWrites
+	// counts the writes that have started waiting.
+	WriteDelay time.Duration
+	SlowWrites int
 	// DrainOnce: Drain does not make reads fail from then on (as a read
 	// deadline does); it wakes the reader once - the next Read, blocked now
 	// or entered later, returns (0, nil) - and does some more work before it
 	// returns.  "Ensures that the reader will wake up appropriately if it
 	// was blocked" is all the Tty contract asks of Drain.
-	DrainOnce bool
-	FailWrites   int  // the next n Writes fail with nothing written
-	ShortWrite   int  // the next Write longer than this accepts only this many bytes, then fails (0 = off)
+	DrainOnce    bool
+	FailWrites   int // the next n Writes fail with nothing written
+	ShortWrite   int // the next Write longer than this accepts only this many bytes, then fails (0 = off)
 	OnFault      func(kind string)
 	LastUnsent   []byte // the bytes the last faulted Write did not accept
 	Polling      bool   // polling personality: Read returns 0,nil periodically; Drain is a no-op
@@ -291,6 +296,12 @@ func (t *Tty) Read(b []byte) (int, error) {
 
 func (t *Tty) Write(b []byte) (int, error) {
 	simrt.Yield("tty.Write")
+	if t.WriteDelay > 0 {
+		// a slow line (flow control, a full pty buffer): the write takes time
+		t.SlowWrites++
+		t.Faults.Inc("write_slow")
+		simrt.Sleep("tty.Write(slow)", t.WriteDelay)
+	}
 	if t.WriteFail {
 		t.Faults.Inc("write_fail")
 		t.log("Write", 0, true)
